@@ -46,7 +46,7 @@ META = {
     },
     'assumptions': [
         'exact real arithmetic: a log-probability is its probability (log semiring = probability semiring); float round-off in logaddexp is outside',
-        'np.argpartition returns some k-subset whose scores are >= all others (any tie-break: a superset of numpy\'s behaviour)',
+        'np.argpartition returns some k-subset whose scores are >= all others (any tie-break: a superset of numpy\'s behaviour), in index order or reversed',
         'the constant e^-10 of the default selector is a symbolic real within 2^-40 relative of its value',
     ],
     'outside': ['T > 4, C > 4, k > 3 (except unbounded)', 'the symbol_separator join', 'float round-off / underflow'],
@@ -61,7 +61,10 @@ def tasks(tier):
     if tier == 'quick':
         for T in (1, 2, 3):
             for k in (1, 2, 3, BIG):
-                ts.append({'mode': 'beam', 'T': T, 'C': 3, 'k': k, 'sel': 'all'})
+                t = {'mode': 'beam', 'T': T, 'C': 3, 'k': k, 'sel': 'all'}
+                if T == 3 and k in (2, 3):
+                    t['split'] = 32
+                ts.append(t)
         for T in (1, 2):
             for k in (1, 2, BIG):
                 ts.append({'mode': 'beam', 'T': T, 'C': 3, 'k': k, 'sel': 'default'})
@@ -167,8 +170,12 @@ def _argpartition_stub(rec):
                 cons.append(core.zb(c))
         if cons:
             core.assume(z3.And(*cons), check=False)
-        rec['selections'].append({'n': n, 'kept': list(sel)})
-        order = [i for i in range(n) if i not in sel] + list(sel)
+        # numpy returns the kept entries in no particular order: index order or reversed (all orders for k = 2)
+        kept = list(sel)
+        if len(kept) > 1 and core.choose(2) == 1:
+            kept.reverse()
+        rec['selections'].append({'n': n, 'kept': kept})
+        order = [i for i in range(n) if i not in sel] + kept
         return symnp.A(order, (n,), symnp.int64)
     return argpartition
 
